@@ -342,8 +342,15 @@ func (sw *SingleAddressWallet) selectUTXOs(amount types.Currency, inputs int, us
 	var unconfirmedUTXOs []types.SiacoinElement
 	var unconfirmedSum types.Currency
 	if useUnconfirmed {
+		// while the store lags behind a reorg, a transaction whose block was
+		// reverted is back in the pool although the store still lists its
+		// outputs; such an output must not be offered a second time
+		confirmed := make(map[types.SiacoinOutputID]bool, len(elements))
+		for _, sce := range elements {
+			confirmed[sce.ID] = true
+		}
 		for _, sce := range tpoolUtxos {
-			if sce.SiacoinOutput.Address != sw.addr || sw.isLocked(sce.ID) {
+			if sce.SiacoinOutput.Address != sw.addr || sw.isLocked(sce.ID) || confirmed[sce.ID] {
 				continue
 			}
 			unconfirmedUTXOs = append(unconfirmedUTXOs, sce.Share())
